@@ -873,7 +873,7 @@ def generate(repo):
         h = ast.Module(body=body, type_ignores=[])
         hdr_key, = {meta_key(fn, 'header_len')}
         env = {'len(contents)': 'flen', 'plen': 'plen', 'header_len': 'hdr', 'ilen': 'ilen'}
-        tr = RTr(h, env, 'int', consts)
+        tr = RTr(fn, env, 'int', consts)     # the whole function: a local hoisted out of the handler (offset) is followed
         # roles, not names: the zero buffer is the `bytes(<count>)`, the repair count is computed from its length,
         # the extension is `contents[<offset>:] + <zero buffer>`, the tail `<buffer>[-<count>:]` is set to the sentinel
         assigns = [st for st in body if isinstance(st, ast.Assign) and len(st.targets) == 1]
@@ -919,6 +919,139 @@ def generate(repo):
            f'def zygoTailLower (backtrack : Int) : Int := {M}.modelTailLower backtrack\n'
            f'def zygoTailValue : Int := {M}.zygoInvalid\n'
            'def zygoTruncWarns : Bool := true\ndef zygoHeaderLenKey : String := "header_size"')
+
+    # ---- file layout: where the intensity and phase blocks start, how long they are, what they hold
+    def zlayout():
+        fn = get_def(io, 'read_zygo_dat')
+        keys = {nm: meta_key(fn, nm) for nm in ('iw', 'ih', 'ib', 'pw', 'ph', 'header_len')}
+        # the bucket default: `if ib == c: ib = d` (at most one re-assignment of ib)
+        ib_assigns = find_assigns(fn, 'ib')
+        ifs = [n for n in ast.walk(fn) if isinstance(n, ast.If) and any(isinstance(x, ast.Name) and x.id == 'ib' for x in ast.walk(n.test))]
+        if len(ib_assigns) == 1 and not ifs:
+            buckets = 'ib'
+        elif len(ib_assigns) == 2 and len(ifs) == 1:
+            t = ifs[0]
+            if not (isinstance(t.test, ast.Compare) and len(t.test.ops) == 1 and isinstance(t.test.ops[0], ast.Eq)
+                    and ast.unparse(t.test.left) == 'ib' and isinstance(t.test.comparators[0], ast.Constant)
+                    and isinstance(t.test.comparators[0].value, int) and len(t.body) == 1 and not t.orelse
+                    and isinstance(t.body[0], ast.Assign) and ast.unparse(t.body[0].targets[0]) == 'ib'
+                    and isinstance(t.body[0].value, ast.Constant) and isinstance(t.body[0].value.value, int)):
+                raise Untranslatable(f'bucket default {ast.unparse(t)[:50]}')
+            buckets = f'if ib = ({t.test.comparators[0].value} : Int) then ({t.body[0].value.value} : Int) else ib'
+        else:
+            raise Untranslatable('ib is re-assigned in a way the translator does not understand')
+        # RTr: a hoisted local (offset = header_len + ilen * 2, shared by the normal read and the repair) is followed symbolically
+        tr = RTr(fn, {'iw': 'iw', 'ih': 'ih', 'ib': '(zygoBuckets ib)', 'pw': 'pw', 'ph': 'ph', 'header_len': 'hdr', 'ilen': 'ilen', 'plen': 'plen'},
+                 'int', consts)
+        if len(find_assigns(fn, 'ilen')) != 1 or len(find_assigns(fn, 'plen')) != 1:
+            raise Untranslatable('ilen / plen are not assigned exactly once')
+        ilen = tr.expr(find_assign(fn, 'ilen'))
+        plen = tr.expr(find_assign(fn, 'plen'))
+
+        def frombuffer(node):
+            """(call node of np.frombuffer, reshape tuple or None) inside an assigned value"""
+            calls = [c for c in ast.walk(node) if isinstance(c, ast.Call) and _unp(c.func).endswith('frombuffer')]
+            if len(calls) != 1:
+                raise Untranslatable('no single frombuffer call')
+            rs = [c for c in ast.walk(node) if isinstance(c, ast.Call) and isinstance(c.func, ast.Attribute) and c.func.attr == 'reshape']
+            shape = None
+            if rs:
+                a = rs[0].args[0] if len(rs[0].args) == 1 else ast.Tuple(elts=list(rs[0].args))
+                if not isinstance(a, ast.Tuple):
+                    raise Untranslatable('reshape argument')
+                shape = [ast.unparse(e) for e in a.elts]
+            c = calls[0]
+            if len(c.args) != 1 or ast.unparse(c.args[0]) != 'contents':
+                raise Untranslatable('frombuffer does not read the file contents')
+            kw = {k.arg: k.value for k in c.keywords}
+            if set(kw) != {'offset', 'count', 'dtype'}:
+                raise Untranslatable(f'frombuffer keywords {sorted(kw)}')
+            return kw, shape
+
+        def dtype_code(e):
+            txt = _unp(e)
+            if isinstance(e, ast.Name) and txt not in ('int', 'float'):
+                txt = _unp(find_assign(fn, e.id))
+            table = {'np.uint16': 'u16native', "np.dtype(np.int32).newbyteorder('>')": 'i32big', "np.dtype('>i4')": 'i32big', "'>i4'": 'i32big',
+                     "np.dtype(np.uint16)": 'u16native', "'<u2'": 'u16little', "np.dtype('<u2')": 'u16little'}
+            if txt not in table:
+                raise Untranslatable(f'dtype {txt}')
+            return table[txt]
+        ints = [v for v in find_assigns(fn, 'intensity') if 'frombuffer' in _unp(v)]
+        if len(ints) != 1:
+            raise Untranslatable('intensity is not read by one frombuffer')
+        ikw, ishape = frombuffer(ints[0])
+        if ishape is None:
+            raise Untranslatable('intensity is not reshaped')
+        trys = [n for n in ast.walk(fn) if isinstance(n, ast.Try)]
+        if len(trys) != 1:
+            raise Untranslatable('expected one try block')
+        pst = [st for st in trys[0].body if isinstance(st, ast.Assign) and ast.unparse(st.targets[0]) == 'phase_raw']
+        if len(pst) != 1:
+            raise Untranslatable('phase_raw is not read in the try block')
+        pkw, _ = frombuffer(pst[0].value)
+        # frame selection
+        sel = []
+        action = fn.args.args[1].arg if len(fn.args.args) > 1 else 'multi_intensity_action'
+
+        def action_key(e):
+            """the compared expression, with a local that only names `<action>.lower()` folded back"""
+            if isinstance(e, ast.Name) and e.id != action:
+                vs = find_assigns(fn, e.id)
+                if len(vs) == 1:
+                    return ast.unparse(vs[0])
+            return ast.unparse(e)
+        for n in ast.walk(fn):
+            if isinstance(n, ast.If) and isinstance(n.test, ast.Compare) and len(n.test.ops) == 1 and isinstance(n.test.ops[0], ast.Eq) \
+                    and action in action_key(n.test.left) and isinstance(n.test.comparators[0], ast.Constant):
+                if action_key(n.test.left) != f'{action}.lower()':
+                    raise Untranslatable('frame selection key')
+                if len(n.body) != 1 or not isinstance(n.body[0], ast.Assign) or ast.unparse(n.body[0].targets[0]) != 'intensity':
+                    raise Untranslatable('frame selection body')
+                v = n.body[0].value
+                if isinstance(v, ast.Subscript) and ast.unparse(v.value) == 'intensity':
+                    try:
+                        k = pyeval(v.slice, {})
+                    except Exception:
+                        raise Untranslatable('frame index')
+                    if not isinstance(k, int):
+                        raise Untranslatable('frame index')
+                    sel.append((n.lineno, n.test.comparators[0].value, f'some ({k} : Int)'))
+                elif ast.unparse(v) in ('intensity.mean(axis=0)', 'intensity.mean(0)', 'np.mean(intensity, axis=0)'):
+                    sel.append((n.lineno, n.test.comparators[0].value, 'none'))
+                else:
+                    raise Untranslatable(f'frame selection {ast.unparse(v)}')
+        if not sel:
+            raise Untranslatable('frame selection chain not recognised')
+        sel.sort()
+        sl = ', '.join(f'({lean_str(a)}, {b})' for _, a, b in sel)
+        kl = ', '.join(f'({lean_str(a)}, {lean_str(b)})' for a, b in keys.items())
+        return (f'def zygoBuckets (ib : Int) : Int := {buckets}\n'
+                f'def zygoIlen (iw ih ib : Int) : Int := {ilen}\n'
+                f'def zygoPlen (pw ph : Int) : Int := {plen}\n'
+                f'def zygoIntOffset (hdr : Int) : Int := {tr.expr(ikw["offset"])}\n'
+                f'def zygoIntCount (ilen : Int) : Int := {tr.expr(ikw["count"])}\n'
+                f'def zygoIntDtype : String := {lean_str(dtype_code(ikw["dtype"]))}\n'
+                f'def zygoIntShape : List String := [{", ".join(lean_str(x) for x in ishape)}]\n'
+                f'def zygoPhaseOffset (hdr ilen : Int) : Int := {tr.expr(pkw["offset"])}\n'
+                f'def zygoPhaseCount (plen : Int) : Int := {tr.expr(pkw["count"])}\n'
+                f'def zygoPhaseDtype : String := {lean_str(dtype_code(pkw["dtype"]))}\n'
+                f'def zygoFrameSel : List (String × Option Int) := [{sl}]\n'
+                f'def zygoLayoutKeys : List (String × String) := [{kl}]')
+    g.item('zygo.layout', 'prysm/io.py:read_zygo_dat', None, zlayout,
+           f'def zygoBuckets (ib : Int) : Int := {M}.modelBuckets ib\n'
+           f'def zygoIlen (iw ih ib : Int) : Int := {M}.modelIlen iw ih ib\n'
+           'def zygoPlen (pw ph : Int) : Int := pw * ph\n'
+           f'def zygoIntOffset (hdr : Int) : Int := {M}.modelIntOffset hdr\n'
+           'def zygoIntCount (ilen : Int) : Int := ilen\n'
+           'def zygoIntDtype : String := "u16native"\n'
+           'def zygoIntShape : List String := ["ib", "ih", "iw"]\n'
+           f'def zygoPhaseOffset (hdr ilen : Int) : Int := {M}.modelPhaseOffset hdr ilen\n'
+           'def zygoPhaseCount (plen : Int) : Int := plen\n'
+           'def zygoPhaseDtype : String := "i32big"\n'
+           f'def zygoFrameSel : List (String × Option Int) := {M}.modelFrameSel\n'
+           'def zygoLayoutKeys : List (String × String) := [("iw", "ac_width"), ("ih", "ac_height"), ("ib", "ac_n_buckets"), '
+           '("pw", "cn_width"), ("ph", "cn_height"), ("header_len", "header_size")]')
 
     # ---- Code V: GRD token order
     def cv_grd():
@@ -1080,6 +1213,108 @@ def generate(repo):
         return f'def cvReaderTrailingCheck : Bool := {"true" if ok else "false"}'
     g.item('codev.trailing', 'prysm/io.py:read_codev_gridint', None, cv_trailing, 'def cvReaderTrailingCheck : Bool := true')
 
+    # ---- Code V: comment lines, title line, header line
+    def cv_preamble():
+        r = get_def(io, 'read_codev_gridint')
+        whiles = [st for st in r.body if isinstance(st, ast.While) and 'startswith' in _unp(st.test)]
+        if len(whiles) != 1:
+            raise Untranslatable('no single comment loop')
+        t = whiles[0].test
+        if not (isinstance(t, ast.Call) and isinstance(t.func, ast.Attribute) and t.func.attr == 'startswith' and len(t.args) == 1
+                and isinstance(t.args[0], ast.Constant) and isinstance(t.args[0].value, str) and len(t.args[0].value) == 1):
+            raise Untranslatable(f'comment test {_unp(t)[:50]}')
+        marker = t.args[0].value
+        recv = t.func.value
+        if isinstance(recv, ast.Name):
+            strip, txt = '', recv.id
+        elif isinstance(recv, ast.Call) and isinstance(recv.func, ast.Attribute) and recv.func.attr == 'lstrip' and isinstance(recv.func.value, ast.Name):
+            txt = recv.func.value.id
+            if not recv.args:
+                strip = ' \t\n\r\x0b\x0c'
+            elif len(recv.args) == 1 and isinstance(recv.args[0], ast.Constant) and isinstance(recv.args[0].value, str):
+                strip = recv.args[0].value
+            else:
+                raise Untranslatable('lstrip argument')
+        else:
+            raise Untranslatable(f'comment test {_unp(t)[:50]}')
+        body = whiles[0].body
+        nl = "'\\n'"
+
+        def is_find(e, t=None):
+            return ast.unparse(e) == f'{t or txt}.find({nl})'
+
+        def resolves_to_find(e, scope):
+            """`e` is txt.find(newline), or a local of `scope` whose (every) assignment is that"""
+            if is_find(e):
+                return True
+            if isinstance(e, ast.Name):
+                vs = [st.value for st in scope if isinstance(st, ast.Assign) and len(st.targets) == 1 and ast.unparse(st.targets[0]) == e.id]
+                return bool(vs) and all(is_find(v) for v in vs)
+            return False
+
+        def past_newline(e, scope):
+            """classify a slice bound: 'after' = find+1, 'at' = find, 'wrong' = another offset from find, None = not understood"""
+            if resolves_to_find(e, scope):
+                return 'at'
+            if isinstance(e, ast.BinOp) and isinstance(e.op, (ast.Add, ast.Sub)) and isinstance(e.right, ast.Constant) and resolves_to_find(e.left, scope):
+                return 'after' if isinstance(e.op, ast.Add) and e.right.value == 1 else 'wrong'
+            if isinstance(e, ast.BinOp) and isinstance(e.op, ast.Add) and isinstance(e.left, ast.Constant) and resolves_to_find(e.right, scope):
+                return 'after' if e.left.value == 1 else 'wrong'
+            return None
+        adv = [st for st in body if isinstance(st, ast.Assign) and ast.unparse(st.targets[0]) == txt]
+        if len(adv) != 1 or not (isinstance(adv[0].value, ast.Subscript) and ast.unparse(adv[0].value.value) == txt
+                                 and isinstance(adv[0].value.slice, ast.Slice) and adv[0].value.slice.upper is None and adv[0].value.slice.lower is not None):
+            raise Untranslatable('comment loop does not advance the text by one slice')
+        kind = past_newline(adv[0].value.slice.lower, body)
+        if kind is None:
+            raise Untranslatable('comment loop advance not understood')
+        if not any(isinstance(st, ast.If) and any(isinstance(x, ast.Raise) for x in st.body) for st in body):
+            raise Untranslatable('comment loop without the missing-newline guard')
+        loop_ok = kind == 'after'           # recognised; `false` only for a recognised different offset
+        # after the loop: title = txt[:find]; txt = txt[find+1:]; hdr = txt[:find]; data = txt[find+1:] (names of the temporaries are free)
+        after = r.body[r.body.index(whiles[0]) + 1:]
+        stop = next((k for k, st in enumerate(after) if isinstance(st, ast.Assign) and '.split()' in ast.unparse(st.value)), None)
+        if stop is None:
+            raise Untranslatable('header line is not split into tokens')
+        seg = after[:stop]
+        hdrname = ast.unparse(after[stop].value).replace('.split()', '')
+        kinds = []
+        for k, st in enumerate(seg):
+            if isinstance(st, ast.Assign) and isinstance(st.value, ast.Subscript) and ast.unparse(st.value.value) == txt and isinstance(st.value.slice, ast.Slice):
+                sl = st.value.slice
+                if sl.step is not None or (sl.lower is None) == (sl.upper is None):
+                    raise Untranslatable('preamble slice')
+                kd = past_newline(sl.upper if sl.lower is None else sl.lower, seg[:k])
+                if kd is None:
+                    raise Untranslatable('preamble slice bound not understood')
+                kinds.append((ast.unparse(st.targets[0]), 'head' if sl.lower is None else 'tail', kd))
+            elif isinstance(st, ast.Assign) and is_find(st.value):
+                pass
+            elif isinstance(st, ast.If) and all(isinstance(x, ast.Raise) for x in st.body) and not st.orelse:
+                pass
+            else:
+                raise Untranslatable(f'unexpected preamble statement {ast.unparse(st)[:40]}')
+        # note: resolves_to_find looks at ALL assignments of the temporary before the use; the text is re-sliced in between,
+        # so the order head(title) / tail(txt) / head(hdr) is what makes the second `find` the header's
+        shape = [(nm == txt, hd) for nm, hd, _ in kinds]
+        if shape != [(False, 'head'), (True, 'tail'), (False, 'head')] or kinds[2][0] != hdrname or kinds[0][0] != 'title':
+            raise Untranslatable(f'preamble is not title / advance / header: {[(a_, b_) for a_, b_, _ in kinds]}')
+        data = [st for st in after[stop:] if isinstance(st, ast.Assign) and ast.unparse(st.targets[0]) == 'main_data']
+        if len(data) != 1 or not (isinstance(data[0].value, ast.Subscript) and ast.unparse(data[0].value.value) == txt
+                                  and isinstance(data[0].value.slice, ast.Slice) and data[0].value.slice.upper is None and data[0].value.slice.lower is not None):
+            raise Untranslatable('data block slice')
+        dk = past_newline(data[0].value.slice.lower, seg)
+        if dk is None:
+            raise Untranslatable('data block bound not understood')
+        split_ok = [kd for _, _, kd in kinds] == ['at', 'after', 'at'] and dk == 'after'
+        return (f'def cvCommentStrip : List Nat := [{", ".join(str(c) for c in sorted({ord(ch) for ch in strip}))}]\n'
+                f'def cvCommentMarkerCode : Nat := {ord(marker)}\n'
+                f'def cvCommentLoopOk : Bool := {"true" if loop_ok else "false"}\n'
+                f'def cvTitleHeaderSplit : Bool := {"true" if split_ok else "false"}')
+    g.item('codev.preamble', 'prysm/io.py:read_codev_gridint', None, cv_preamble,
+           'def cvCommentStrip : List Nat := [9, 32]\ndef cvCommentMarkerCode : Nat := 33\ndef cvCommentLoopOk : Bool := true\n'
+           'def cvTitleHeaderSplit : Bool := true')
+
     # ---- Code V: header keywords the writer can emit / the reader understands
     def cv_tokens():
         r = get_def(io, 'read_codev_gridint')
@@ -1087,15 +1322,41 @@ def generate(repo):
         if len(loops) != 1:
             raise Untranslatable('no single header token loop')
         table = []
-        for st in loops[0].body:
-            if isinstance(st, ast.If):
-                m = re.fullmatch(r"params\[i\]\.upper\(\) == '(\w+)'", ast.unparse(st.test))
-                if not m:
-                    raise Untranslatable(f'token test {ast.unparse(st.test)[:50]}')
-                incs = [x for x in st.body if isinstance(x, ast.AugAssign) and ast.unparse(x.target) == 'i' and isinstance(x.op, ast.Add)]
-                if len(incs) != 1 or not isinstance(incs[0].value, ast.Constant) or not isinstance(st.body[-1], ast.Continue):
-                    raise Untranslatable(f'token {m.group(1)} does not advance by a constant and continue')
-                table.append((m.group(1), incs[0].value.value - 1))
+        body = loops[0].body
+        tokname = None
+        for k, st in enumerate(body):
+            if isinstance(st, ast.Assign) and len(st.targets) == 1 and isinstance(st.targets[0], ast.Name) \
+                    and ast.unparse(st.value) == 'params[i].upper()' and tokname is None:
+                tokname = st.targets[0].id          # the upper-cased token hoisted into a local
+            elif isinstance(st, ast.If):
+                cur, last = st, k == len(body) - 1
+                while True:
+                    tests = [r"params\[i\]\.upper\(\) == '(\w+)'"] + ([rf"{tokname} == '(\w+)'"] if tokname else [])
+                    m = next((mm for mm in (re.fullmatch(t, ast.unparse(cur.test)) for t in tests) if mm), None)
+                    if not m:
+                        raise Untranslatable(f'token test {ast.unparse(cur.test)[:50]}')
+                    incs = [x for x in cur.body if isinstance(x, ast.AugAssign) and ast.unparse(x.target) == 'i' and isinstance(x.op, ast.Add)]
+                    if len(incs) != 1 or not isinstance(incs[0].value, ast.Constant):
+                        raise Untranslatable(f'token {m.group(1)} does not advance by a constant')
+                    # after a recognised keyword nothing else of the loop body may run: `continue`, or an if/elif/else chain
+                    # that is the last statement of the body and ends in `else: raise`
+                    ends_chain = False
+                    nxt = None
+                    if len(cur.orelse) == 1 and isinstance(cur.orelse[0], ast.If):
+                        nxt = cur.orelse[0]
+                    elif cur.orelse and not all(isinstance(x, ast.Raise) for x in cur.orelse):
+                        raise Untranslatable('else branch of the token chain is not a raise')
+                    if not isinstance(cur.body[-1], ast.Continue):
+                        c2 = cur
+                        while len(c2.orelse) == 1 and isinstance(c2.orelse[0], ast.If):
+                            c2 = c2.orelse[0]
+                        ends_chain = last and (cur is not st or bool(cur.orelse)) and bool(c2.orelse) and all(isinstance(x, ast.Raise) for x in c2.orelse)
+                        if not ends_chain:
+                            raise Untranslatable(f'token {m.group(1)} neither continues nor sits in a closing if/elif/else chain')
+                    table.append((m.group(1), incs[0].value.value - 1))
+                    if nxt is None:
+                        break
+                    cur = nxt
             elif not isinstance(st, ast.Raise):
                 raise Untranslatable('unexpected statement in the token loop')
         w = get_def(io, 'write_codev_gridint')
@@ -1106,7 +1367,9 @@ def generate(repo):
                 typs = [str(x) for x in pyeval(st.test.comparators[0], consts)]
         if not typs:
             raise Untranslatable('no `assert typ in (...)`')
-        nnbs = sorted({v.value for v in find_assigns(w, 'nnb') if isinstance(v, ast.Constant) and isinstance(v.value, str)})
+        nnbs = sorted({c.value for v in find_assigns(w, 'nnb')
+                       for c in ([v] if isinstance(v, ast.Constant) else [v.body, v.orelse] if isinstance(v, ast.IfExp) else [])
+                       if isinstance(c, ast.Constant) and isinstance(c.value, str)})
         if not nnbs:
             raise Untranslatable('nnb keyword strings not found')
         tpl = fstring_template(find_assign(w, 'hdr'))
